@@ -1068,3 +1068,194 @@ Lemma misattributed_utf8_reachable :
   utf8_valid (out1 mis_cfg) = true /\
   run_outcome mis_cfg mis_sched = Finished (RErr (EUtf8 S1)).
 Proof. split; vm_compute; reflexivity. Qed.
+
+(* ------------------------------------------------------------------ the protocol cannot get stuck *)
+(* A measure that some enabled step always decreases (child steps are never needed): the readers
+   drain what is in their pipes and return; the waiter's loop is paid for by the clock. *)
+Definition rrank (x : strm) : nat :=
+  match r_pc x with
+  | RNone | RDone => 0
+  | RExit => 1
+  | RFlag => 2
+  | RLoop => 3 + length (pipe x)
+  end%nat.
+
+Definition pollp (c : cfg) : Z := Z.max (poll c) poll_min.
+Definition kfac (c : cfg) : nat := (Z.to_nat (pollp c) + 4)%nat.
+Definition togo (c : cfg) (t : Z) : nat := Z.to_nat (timeout c - t).
+
+Definition wrank (c : cfg) (st : state) : nat :=
+  match w st with
+  | WFlag => 10 + kfac c * togo c (clock st) + 3
+  | WTry => 10 + kfac c * togo c (clock st) + 2
+  | WDeadline => 10 + kfac c * togo c (clock st) + 1
+  | WSleep u => 10 + kfac c * togo c (Z.max (clock st) u) + 4 + Z.to_nat (u - clock st)
+  | WKill _ => 6
+  | WWait _ => 5
+  | EJoin1 _ | OJoin1 _ => 4
+  | EJoin2 _ | OJoin2 _ _ => 3
+  | WDone _ => 0
+  end%nat.
+
+Definition mu (c : cfg) (st : state) : nat := (wrank c st + rrank (st1 st) + rrank (st2 st))%nat.
+
+Lemma pollp_pos : forall c, 1 <= pollp c.
+Proof. intros c. unfold pollp. change poll_min with 1. lia. Qed.
+
+Lemma read_chunk_pos : 1 <= read_chunk.
+Proof. unfold read_chunk. lia. Qed.
+
+(* a reader whose writer is gone always has a step, and it lowers its rank *)
+Lemma reader_progress : forall c st s,
+  cs st <> CRun -> joined st s = false ->
+  exists st', reader_step c st s 1 = Some st' /\
+    (rrank (sget st' s) < rrank (sget st s))%nat /\
+    sget st' (other s) = sget st (other s) /\ w st' = w st /\ clock st' = clock st.
+Proof.
+  intros c st s Hc Hj. unfold joined in Hj. unfold reader_step.
+  assert (is_run (cs st) = false) as R by (destruct (cs st); auto; congruence).
+  destruct (r_pc (sget st s)) eqn:Hp; try discriminate.
+  - destruct (pipe (sget st s)) as [|b tl] eqn:Hpipe; cbn [nil_b].
+    + rewrite R. eexists. split; [reflexivity|].
+      rewrite sget_sset_same, sget_sset_other. unfold rrank. cbn [r_pc]. rewrite Hp, Hpipe.
+      repeat split; try (destruct s; reflexivity). cbn. lia.
+    + assert ((1 <=? Z.of_nat 1) && (Z.of_nat 1 <=? Z.min read_chunk (len (b :: tl))) = true) as K.
+      { apply andb_true_intro. split; [reflexivity|]. apply Z.leb_le.
+        pose proof read_chunk_pos. unfold len. cbn [length]. lia. }
+      rewrite K.
+      destruct (overflows c (len (rbuf (sget st s))) (Z.of_nat 1)); eexists; (split; [reflexivity|]);
+        rewrite sget_sset_same, sget_sset_other; unfold rrank; cbn [r_pc pipe skipn]; rewrite Hp, Hpipe;
+        repeat split; try (destruct s; reflexivity); cbn [length]; lia.
+  - eexists. split; [reflexivity|].
+    replace (sget (set_flag (sset st s _) _) s) with
+      {| rem := rem (sget st s); pipe := pipe (sget st s); rclosed := rclosed (sget st s);
+         r_pc := RExit; rbuf := rbuf (sget st s); written := written (sget st s);
+         rovf := rovf (sget st s) |} by (destruct s; reflexivity).
+    unfold rrank. cbn [r_pc]. rewrite Hp.
+    repeat split; try (destruct s; reflexivity). lia.
+  - eexists. split; [reflexivity|].
+    rewrite sget_sset_same, sget_sset_other. unfold rrank. cbn [r_pc]. rewrite Hp.
+    repeat split; try (destruct s; reflexivity). lia.
+Qed.
+
+Lemma mu_reader : forall c st st' s,
+  (rrank (sget st' s) < rrank (sget st s))%nat ->
+  sget st' (other s) = sget st (other s) -> w st' = w st -> clock st' = clock st ->
+  (mu c st' < mu c st)%nat.
+Proof.
+  intros c st st' s Hr Ho Hw Hc. unfold mu, wrank. rewrite Hw, Hc.
+  destruct s; cbn [sget other] in *; rewrite Ho; lia.
+Qed.
+
+Lemma mu_waiter : forall c st st',
+  st1 st' = st1 st -> st2 st' = st2 st -> (wrank c st' < wrank c st)%nat -> (mu c st' < mu c st)%nat.
+Proof. intros c st st' H1 H2 H. unfold mu. rewrite H1, H2. lia. Qed.
+
+Lemma join_blocked_not_joined : forall st s, join_ok st s = JBlocked -> joined st s = false.
+Proof.
+  intros st s. unfold join_ok, joined. destruct (r_pc (sget st s)); auto; try discriminate.
+  destruct (join_recheck && (flag st =? join_code s)); [discriminate|].
+  destruct (negb utf8_checked || utf8_valid (rbuf (sget st s))); discriminate.
+Qed.
+
+Lemma progress : forall c st,
+  Inv c st -> (forall r, w st <> WDone r) ->
+  exists ch st', step c st ch = Some st' /\ (mu c st' < mu c st)%nat.
+Proof.
+  intros c st H Hnd. pose proof (inv_w _ _ H) as W. unfold WI in W.
+  assert (forall s, cs st <> CRun -> joined st s = false ->
+          exists ch st', step c st ch = Some st' /\ (mu c st' < mu c st)%nat) as RD.
+  { intros s Hc Hj. destruct (reader_progress c st s Hc Hj) as (st' & A & B & C & D & E).
+    exists (Reader s 1), st'. split; [exact A|]. eapply mu_reader; eauto. }
+  destruct (w st) eqn:Hw.
+  - (* WFlag *)
+    exists Waiter. cbn [step]. unfold waiter_step. rewrite Hw.
+    destruct (flag st =? 0); eexists; (split; [reflexivity|]); apply mu_waiter; auto;
+      unfold wrank; st_simpl; rewrite Hw; lia.
+  - exists Waiter. cbn [step]. unfold waiter_step. rewrite Hw.
+    destruct (is_run (cs st)); eexists; (split; [reflexivity|]); apply mu_waiter; auto;
+      unfold wrank; st_simpl; rewrite Hw; lia.
+  - (* WDeadline *)
+    exists Waiter. cbn [step]. unfold waiter_step. rewrite Hw.
+    destruct (deadline_passed c st) eqn:D; eexists; (split; [reflexivity|]); apply mu_waiter; auto;
+      unfold wrank; st_simpl; rewrite Hw; [lia|].
+    unfold deadline_passed in D. change deadline_ge with true in D. cbv iota in D.
+    apply Z.leb_gt in D. fold (pollp c). pose proof (pollp_pos c) as P.
+    replace (Z.max (clock st) (clock st + pollp c)) with (clock st + pollp c) by lia.
+    replace (clock st + pollp c - clock st) with (pollp c) by lia.
+    unfold togo, kfac.
+    assert (Z.to_nat (timeout c - (clock st + pollp c)) + 1 <= Z.to_nat (timeout c - clock st))%nat as Q by lia.
+    apply (Nat.mul_le_mono_l _ _ (Z.to_nat (pollp c) + 4)) in Q.
+    rewrite Nat.mul_add_distr_l, Nat.mul_1_r in Q. lia.
+  - (* WSleep *)
+    destruct (Z.leb_spec until (clock st)) as [L|L].
+    + exists Waiter. cbn [step]. unfold waiter_step. rewrite Hw.
+      apply Z.leb_le in L. rewrite L. apply Z.leb_le in L.
+      eexists; (split; [reflexivity|]); apply mu_waiter; auto.
+      unfold wrank; st_simpl; rewrite Hw.
+      replace (Z.max (clock st) until) with (clock st) by lia. lia.
+    + exists Tick. eexists. split; [reflexivity|]. apply mu_waiter; auto.
+      unfold wrank; st_simpl; rewrite Hw.
+      replace (Z.max (clock st + 1) until) with until by lia.
+      replace (Z.max (clock st) until) with until by lia. lia.
+  - exists Waiter. cbn [step]. unfold waiter_step. rewrite Hw.
+    eexists; (split; [reflexivity|]); apply mu_waiter; auto.
+    unfold wrank, do_kill; cbn [w]; rewrite Hw; lia.
+  - (* WWait *)
+    destruct W as (A & B & C).
+    exists Waiter. cbn [step]. unfold waiter_step. rewrite Hw.
+    assert (is_run (cs st) = false) as R by (destruct (cs st); auto; congruence). rewrite R.
+    eexists; (split; [reflexivity|]); apply mu_waiter; auto.
+    unfold wrank; st_simpl; rewrite Hw; lia.
+  - (* EJoin1 *)
+    destruct W as (A & B & C & D).
+    destruct (joined st S1) eqn:J; [|apply (RD S1); auto].
+    exists Waiter. cbn [step]. unfold waiter_step. rewrite Hw, J.
+    eexists; (split; [reflexivity|]); apply mu_waiter; auto.
+    unfold wrank; st_simpl; rewrite Hw; lia.
+  - destruct W as (A & B & C & D).
+    destruct (joined st S2) eqn:J; [|apply (RD S2); auto].
+    exists Waiter. cbn [step]. unfold waiter_step. rewrite Hw, J.
+    eexists; (split; [reflexivity|]); apply mu_waiter; auto.
+    unfold wrank; st_simpl; rewrite Hw; lia.
+  - (* OJoin1 *)
+    destruct W as (A & B & C & D).
+    assert (cs st <> CRun) as NR by (destruct C; congruence).
+    destruct (join_ok st S1) eqn:J.
+    + apply (RD S1); auto. apply join_blocked_not_joined; auto.
+    + exists Waiter. cbn [step]. unfold waiter_step. rewrite Hw, J.
+      eexists; (split; [reflexivity|]); apply mu_waiter; auto. unfold wrank; st_simpl; rewrite Hw; lia.
+    + exists Waiter. cbn [step]. unfold waiter_step. rewrite Hw, J.
+      eexists; (split; [reflexivity|]); apply mu_waiter; auto. unfold wrank; st_simpl; rewrite Hw; lia.
+    + exists Waiter. cbn [step]. unfold waiter_step. rewrite Hw, J.
+      eexists; (split; [reflexivity|]); apply mu_waiter; auto. unfold wrank; st_simpl; rewrite Hw; lia.
+  - destruct W as (A & B & C & D).
+    assert (cs st <> CRun) as NR by (destruct C; congruence).
+    destruct (join_ok st S2) eqn:J.
+    + apply (RD S2); auto. apply join_blocked_not_joined; auto.
+    + exists Waiter. cbn [step]. unfold waiter_step. rewrite Hw, J.
+      eexists; (split; [reflexivity|]); apply mu_waiter; auto. unfold wrank; st_simpl; rewrite Hw; lia.
+    + exists Waiter. cbn [step]. unfold waiter_step. rewrite Hw, J.
+      eexists; (split; [reflexivity|]); apply mu_waiter; auto. unfold wrank; st_simpl; rewrite Hw; lia.
+    + exists Waiter. cbn [step]. unfold waiter_step. rewrite Hw, J.
+      eexists; (split; [reflexivity|]); apply mu_waiter; auto. unfold wrank; st_simpl; rewrite Hw; lia.
+  - exfalso. apply (Hnd r). reflexivity.
+Qed.
+
+Lemma can_finish_aux : forall c n st,
+  (mu c st < n)%nat -> Inv c st -> exists sched r, w (run c sched st) = WDone r.
+Proof.
+  intros c n. induction n as [|n IH]; intros st Hm H; [lia|].
+  destruct (w st) eqn:Hw; try (
+    assert (forall r, w st <> WDone r) as Hnd by (intros r0 E; rewrite Hw in E; discriminate E);
+    destruct (progress c st H Hnd) as (ch & st' & Hs & Hlt);
+    destruct (IH st') as (sched & r0 & Hr); [lia | eapply step_inv; eauto |];
+    exists (ch :: sched), r0; cbn [run fold_left]; unfold step_skip; rewrite Hs; exact Hr).
+  exists [], r. exact Hw.
+Qed.
+
+Lemma can_always_finish_lemma : forall c st,
+  cfg_ok c -> reachable c st -> exists sched r, w (run c sched st) = WDone r.
+Proof.
+  intros c st Hc R. apply (can_finish_aux c (S (mu c st))); [lia|]. apply reachable_inv; auto.
+Qed.
